@@ -68,6 +68,9 @@ type Contract struct {
 	FieldTypes map[string]string
 	Unreach  []string // function keys that must not be reachable through repository code
 	When     []string  // declared domain restrictions (also in Requires)
+	FDecreases *CExpr  // function-level termination measure (recursive calls, also through an implemented interface)
+	Implements string  // key of the interface-method contract whose requires/ensures this method must satisfy
+	Iface    bool      // contract of an interface method: assumed at dynamic calls, justified by its implementations
 	Covers   []*Clause // conditions that must be satisfiable at some return (guards against vacuous success paths)
 }
 
@@ -83,7 +86,7 @@ func NewContractSet() *ContractSet {
 
 var clauseKW = map[string]bool{"func": true, "extern": true, "requires": true, "ensures": true, "invariant": true, "decreases": true,
 	"modifies": true, "loop": true, "returns": true, "let": true, "lemmas": true, "reveal": true, "field": true, "modes": true,
-	"property": true, "assert": true, "pure": true, "trusted": true, "package": true, "unroll": true, "nopanic": true, "opt": true, "havoc": true, "end": true, "shape": true, "cases": true, "ghost": true, "typefact": true, "public": true, "first": true, "unreachable": true, "fieldtype": true, "snap": true, "cover": true, "when": true}
+	"property": true, "assert": true, "pure": true, "trusted": true, "package": true, "unroll": true, "nopanic": true, "opt": true, "havoc": true, "end": true, "shape": true, "cases": true, "ghost": true, "typefact": true, "public": true, "first": true, "unreachable": true, "fieldtype": true, "snap": true, "cover": true, "when": true, "adt": true, "box": true, "term": true, "implements": true, "interface": true}
 
 var kwRe = regexp.MustCompile(`^([a-z]+)(\[[AH]\])?(@\S+)?(\s|$)`)
 
@@ -126,6 +129,7 @@ func (cs *ContractSet) ParseContractLines(lines []rawLine, defPkg string, file s
 	}
 	var cur *Contract
 	var curLoop *LoopSpec
+	var curBox *boxDecl
 	for _, s := range stmts {
 		where := fmt.Sprintf("%s:%d", file, s.line)
 		parse := func() (*CExpr, error) {
@@ -159,6 +163,33 @@ func (cs *ContractSet) ParseContractLines(lines []rawLine, defPkg string, file s
 			li := strings.LastIndex(name, ".")
 			ghostDecls[name[:li]] = append(ghostDecls[name[:li]], ghostDecl{name[li+1:], fs[1]})
 			continue
+		case "adt":
+			// adt <InterfaceType> <Sort> <nilConstructor>: values of the interface type are values of an SMT datatype
+			fs := strings.Fields(s.rest)
+			if len(fs) != 3 {
+				return fmt.Errorf("%s: adt <Type> <Sort> <nil constructor>", where)
+			}
+			name := fs[0]
+			if !strings.Contains(name, ".") {
+				name = defPkg + "." + name
+			} else if k := strings.Index(name, "."); k >= 0 {
+				if full, ok := cs.Alias[name[:k]]; ok {
+					name = full + name[k:]
+				}
+			}
+			adtOf[name] = &adtInfo{Sort: SNamed(fs[1]), Nil: fs[2]}
+			cur, curLoop, curBox = nil, nil, nil
+			continue
+		case "box":
+			// box <StructType>: how a pointer to this struct is seen once it is stored in an adt interface
+			name := strings.TrimSpace(s.rest)
+			if !strings.Contains(name, ".") {
+				name = defPkg + "." + name
+			}
+			curBox = &boxDecl{Struct: name, File: file, Line: s.line}
+			boxOf[name] = curBox
+			cur, curLoop = nil, nil
+			continue
 		case "typefact":
 			c := &Contract{Loops: map[int]*LoopSpec{}, File: file, Line: s.line, Pkg: defPkg, Opts: map[string]string{}, TypeFact: true, FieldTypes: map[string]string{}}
 			c.Name = strings.TrimSpace(s.rest)
@@ -180,12 +211,38 @@ func (cs *ContractSet) ParseContractLines(lines []rawLine, defPkg string, file s
 			cs.Keys = append(cs.Keys, c.Key)
 			cur = c
 			curLoop = nil
+			curBox = nil
+			continue
+		}
+		if curBox != nil {
+			e, err := parse()
+			if err != nil {
+				return err
+			}
+			switch s.kw {
+			case "term":
+				curBox.Term = e
+			case "invariant":
+				curBox.Inv = append(curBox.Inv, &Clause{Kind: "invariant", Expr: e, Text: s.rest, Line: s.line})
+			default:
+				return fmt.Errorf("%s: %s inside box", where, s.kw)
+			}
 			continue
 		}
 		if cur == nil {
 			return fmt.Errorf("%s: clause outside contract", where)
 		}
 		switch s.kw {
+		case "implements":
+			name := strings.TrimSpace(s.rest)
+			if k := strings.Index(name, "."); k >= 0 {
+				if full, ok := cs.Alias[name[:k]]; ok {
+					name = full + name[k:]
+				}
+			}
+			cur.Implements = name
+		case "interface":
+			cur.Iface = true
 		case "cover":
 			e, err := parse()
 			if err != nil {
@@ -225,6 +282,8 @@ func (cs *ContractSet) ParseContractLines(lines []rawLine, defPkg string, file s
 			}
 			if curLoop != nil {
 				curLoop.Decreases = e
+			} else {
+				cur.FDecreases = e
 			}
 		case "assert", "snap":
 			body := s.rest
@@ -513,4 +572,47 @@ func ghostKind(s string) *Kind {
 		return &Kind{K: "err"}
 	}
 	panic("unknown ghost kind " + s)
+}
+
+
+// adtInfo: values of an interface type are modelled as values of an SMT datatype (immutable heap nodes).
+type adtInfo struct {
+	Sort *Sort
+	Nil  string
+}
+
+var adtOf = map[string]*adtInfo{}
+
+// boxDecl: the datatype value a pointer to this struct denotes once stored in an adt interface, and the invariant
+// of the struct that boxing must establish (and that a method with this receiver may assume).
+type boxDecl struct {
+	Struct string
+	Term   *CExpr
+	Inv    []*Clause
+	File   string
+	Line   int
+}
+
+var boxOf = map[string]*boxDecl{}
+
+// LinkImplements copies the clauses of interface-method contracts into the contracts of their implementations.
+func (cs *ContractSet) LinkImplements() error {
+	for _, k := range cs.Keys {
+		c := cs.ByKey[k]
+		if c.Implements == "" {
+			continue
+		}
+		ic := cs.ByKey[c.Implements]
+		if ic == nil || !ic.Iface {
+			return fmt.Errorf("%s:%d: implements %s: no interface contract with that key", c.File, c.Line, c.Implements)
+		}
+		c.Requires = append(append([]*Clause{}, ic.Requires...), c.Requires...)
+		c.Ensures = append(append([]*Clause{}, ic.Ensures...), c.Ensures...)
+		c.Modifies = append(append([]*CExpr{}, ic.Modifies...), c.Modifies...)
+		c.Lets = append(append([]*Clause{}, ic.Lets...), c.Lets...)
+		if c.FDecreases == nil {
+			c.FDecreases = ic.FDecreases
+		}
+	}
+	return nil
 }
